@@ -54,6 +54,43 @@ def op_inline_file(task):
     return {"cases": cases, "violations": viol}
 
 
+def op_file_source(task):
+    """what File(path).source gives for content stored on disk: the stored text, decoded as
+    UTF-8 (the locale of the runs), with CRLF line ends read as LF (Python's text mode), and
+    nothing else changed -- and File(name, data).source is data"""
+    from norminette.file import File
+    viol, cases = [], 0
+    d = tempfile.mkdtemp(prefix="fsrc_")
+    try:
+        samples = [("plain.c", "int\tmain(void)\n{\n\treturn (0);\n}\n"),
+                   ("nonl.c", "int\tmain(void)\n{\n\treturn (0);\n}"),
+                   ("empty.h", ""), ("blank.c", "\n\n"), ("tabs.h", "\t\t"),
+                   ("accent.c", "/* r\u00e9sum\u00e9 d\u00e9j\u00e0 vu */\nchar\t*g_s = \"\u00e9t\u00e9 \u4e2d\u6587\";\n"),
+                   ("crlf.c", "int\tg_a;\r\nint\tg_b = 1 +\\\r\n 2;\r\n"),
+                   ("bom_free.c", "// \u00a9 42\nint\tg_c;\n"),
+                   ("ctl.c", "/* a\x0cb\x0bc */\nint\tg_d;\n")]
+        for name, data in samples:
+            path = os.path.join(d, name)
+            with open(path, "wb") as fh:
+                fh.write(data.encode("utf-8"))
+            cases += 1
+            want = data.replace("\r\n", "\n")
+            try:
+                got = File(path).source
+            except Exception as ex:
+                viol.append(f"{name}: reading raises {type(ex).__name__}")
+                continue
+            if got != want:
+                k = next((i for i, (a, b) in enumerate(zip(got, want)) if a != b), min(len(got), len(want)))
+                viol.append(f"{name}: File(path).source differs from the stored text at offset {k}: "
+                            f"{got[k:k + 12]!r} instead of {want[k:k + 12]!r}")
+            if File(name, data).source != data:
+                viol.append(f"{name}: File(name, data).source is not data")
+    finally:
+        shutil.rmtree(d, ignore_errors=True)
+    return {"cases": cases, "violations": viol}
+
+
 def run_cli(args, cwd):
     p = subprocess.run([sys.executable, "-m", "norminette"] + args, cwd=cwd, capture_output=True, text=True,
                        timeout=120, env=dict(os.environ))
@@ -160,6 +197,42 @@ def op_cli(task):
                      "{-d, -dd} x {-o, -R <word>}; plus -R CheckDefine and --cfile/--hfile --filename per file"}
 
 
+def op_same_content(task):
+    """content stored in two files of one run (same bytes, same base name, different directories)
+    gets, for each of them, the diagnostics of the same content passed inline"""
+    viol, cases = [], 0
+    texts = [HEADER.format(name="ft_nine.c") + "\nint\tft_nine(void)\n{\n\treturn (09);\n}\n",
+             HEADER.format(name="ft_nine.c") + "\nint\tft_nine(void)\n{\n\treturn ('ab' + 0b12);\n}\n",
+             "int\tg_mode = 0389;\n"]
+    for text in texts:
+        d = tempfile.mkdtemp(prefix="c16s_")
+        try:
+            for sub in ("libft", os.path.join("push_swap", "libft")):
+                os.makedirs(os.path.join(d, sub))
+                with open(os.path.join(d, sub, "ft_nine.c"), "w") as fh:
+                    fh.write(text)
+            cases += 1
+            rc, out, _ = run_cli(["-f", "json", "--cfile", text, "--filename", "ft_nine.c"], d)
+            ref = parse(out, "json")
+            rc, out, _ = run_cli(["-f", "json", os.path.join("libft", "ft_nine.c"), os.path.join("push_swap", "libft", "ft_nine.c")], d)
+            start = out.find('{"files"')
+            try:
+                data = json.loads(out[start:].split("\n")[0])
+            except Exception:
+                data = None
+            if ref is None or data is None or len(data["files"]) != 2:
+                viol.append(f"no comparable reports for two stored copies of {text[-30:]!r}")
+                continue
+            for f in data["files"]:
+                got = (f["status"], sorted((e["level"], e["name"], e["highlights"][0]["lineno"], e["highlights"][0]["column"])
+                                           for e in f["errors"]))
+                if got != ref:
+                    viol.append(f"{os.path.relpath(f['path'], d)}: stored copy reports {got[1]}, the same content inline {ref[1]}")
+        finally:
+            shutil.rmtree(d, ignore_errors=True)
+    return {"cases": cases, "violations": viol}
+
+
 def op_cli_one(task):
     d = tempfile.mkdtemp(prefix="c16_")
     try:
@@ -182,7 +255,7 @@ def op_cli_one(task):
 
 def main():
     task = json.load(sys.stdin)
-    json.dump({"colors": op_colors, "inline_file": op_inline_file, "cli": op_cli, "cli_one": op_cli_one}[task["op"]](task),
+    json.dump({"colors": op_colors, "inline_file": op_inline_file, "file_source": op_file_source, "cli": op_cli, "cli_one": op_cli_one, "same_content": op_same_content}[task["op"]](task),
               sys.stdout)
 
 
